@@ -12,14 +12,20 @@ func vVariant() (k, maxPayload, mode, B int) {
 	if vTier() > 0 {
 		k = 4
 	}
-	switch vChoose("variant", 3) {
+	nvar := 3
+	if vTier() > 0 {
+		nvar = 4
+	}
+	switch vChoose("variant", nvar) {
+	case 3: // thorough only: per-read nondeterministic chunking (all / 1 / 2 bytes) on 2-frame streams
+		return 2, 2, 2, 16
 	case 0:
 		if vTier() > 0 {
 			return k, 1, 0, 16 // 4 frames with payloads 0..1 (3 frames with 0..2 in the quick tier)
 		}
 		return k, 2, 0, 16
 	case 1:
-		return k - 1, 2, []int{1, 3, 2}[vChoose("mode", 2+vTier())], 16
+		return k - 1, 2, []int{1, 3}[vChoose("mode", 2)], 16
 	default:
 		return k - 1, 2, 0, 1 + vChoose("B", 2)
 	}
